@@ -42,7 +42,8 @@ Qed.
 Theorem valid_name_confined : forall bucket key, plain bucket -> valid_object_name key = true ->
   join_bucket_key bucket key = (bucket :: key_elems key, O).
 Proof.
-  intros bucket key Hb Hk. unfold join_bucket_key, clean_rel, key_elems, valid_object_name in *.
+  intros bucket key Hb Hk. unfold valid_object_name in Hk. cbv zeta in Hk. apply andb_true_iff in Hk. destruct Hk as [Hk _].
+  unfold join_bucket_key, clean_rel, key_elems in *.
   rewrite clean_rev_skip_empty. cbn [filter].
   destruct Hb as [B1 [B2 B3]]. destruct (String.eqb bucket "") eqn:E; [apply String.eqb_eq in E; congruence|]. cbn [negb].
   rewrite clean_rev_plain.
@@ -53,7 +54,9 @@ Qed.
 (* names with a "." or ".." element are refused *)
 Theorem dot_segments_refused : forall key, existsb is_dot_seg (split_char "/" key) = true -> valid_object_name key = false.
 Proof.
-  intros key. unfold valid_object_name. generalize (split_char "/" key) as l.
+  intros key. unfold valid_object_name. cbv zeta. intros H0.
+  assert (H : segs_ok (split_char "/" key) = false); [|rewrite H; reflexivity].
+  revert H0. generalize (split_char "/" key) as l.
   induction l as [|s r IH]; intros H; [discriminate|].
   cbn [existsb] in H. destruct r as [|s2 r2].
   - cbn in H. rewrite orb_false_r in H. cbn. rewrite H. reflexivity.
@@ -69,4 +72,19 @@ Proof.
   destruct (String.eqb id "") eqn:E; [left; apply String.eqb_eq; exact E|right]. apply String.eqb_neq in E.
   unfold is_dot_seg in H1. apply negb_true_iff, orb_false_iff in H1. destruct H1 as [A B]. apply String.eqb_neq in A, B.
   apply negb_true_iff in H2. repeat split; assumption.
+Qed.
+
+(* keys in the reserved bookkeeping namespace are refused: the name itself, the directory object, everything below it *)
+Theorem reserved_namespace_refused : forall r,
+  valid_object_name ".sgwtmp" = false /\ valid_object_name (".sgwtmp/" ++ r) = false.
+Proof.
+  intros r. split; [reflexivity|]. unfold valid_object_name, split_char. cbv zeta.
+  cbn [String.append split_char_acc Ascii.eqb Bool.eqb first_reserved]. cbn [reserved_ns String.eqb Ascii.eqb Bool.eqb negb]. apply andb_false_r.
+Qed.
+
+(* and no other first element is: a valid name keeps its first element, which is not the reserved one *)
+Theorem valid_name_not_reserved : forall key, valid_object_name key = true -> first_reserved (split_char "/" key) = false.
+Proof.
+  intros key H. unfold valid_object_name in H. cbv zeta in H. apply andb_true_iff in H. destruct H as [_ H].
+  apply negb_true_iff in H. exact H.
 Qed.
